@@ -45,10 +45,10 @@ LEVEL_TEXT = ("Lean theorems (all sizes, all contents): tobytes has ceil(n/8) by
               "bitarray-style byte-at-a-time packing = that specification; the bytes property succeeds iff 8 | n and then equals tobytes; "
               "frombytes(tobytes(l))[0:n] = l and tobytes(frombytes(b)) = b; for every valid (offset, length) window the transcribed "
               "_setbytes_with_truncation, BytesIO branch of _setauto (divmod/bytelength arithmetic) and both _setfile branches (empty file included, "
-              "mutable classes included) return exactly drop/take of the source bits; the cut loop of tofile writes exactly tobytes for every chunk size that is a "
-              "positive multiple of 8, and the chunk constant extracted from the source on this run is such a multiple (generated obligation); write-then-read "
-              "round trip = identity; Array tobytes/tofile/fromfile likewise. PARTIAL: under options.lsb0 the tofile theorem is proved only for objects "
-              "that fit in one chunk; beyond that the code is wrong (known finding tofile-lsb0-chunks, decided witness theorem). "
+              "mutable classes included) return exactly drop/take of the source bits; the chunk loop of tofile (_absolute_slice walk) writes exactly tobytes for every chunk size that is a "
+              "positive multiple of 8 (a decided witness shows the hypothesis is needed), and the chunk constant extracted from the source on this run is such a multiple (generated obligation); write-then-read "
+              "round trip = identity; Array tobytes/tofile/fromfile likewise. None of the transcribed functions consults options.lsb0; the flag is on the "
+              "wire and the model ignores it, so any mode dependence shows as a disagreement. "
               "Correspondence: lengths 0..70 x residues, all windows of 0..3-byte (thorough 0..7-byte) sources x 6 source kinds x 4 classes x msb0/lsb0, "
               "hook-overridden chunk sizes 8/16/24/64/1024/4096 around their multiples, Array item sizes 1..64.")
 LEVEL_NOTE = ("Trusted: Lean kernel (+propext, Classical.choice, Quot.sound); extract_C17.py reads the chunk constant it claims to read; bitarray's "
@@ -489,32 +489,10 @@ def oracle(line: str, out: str, extra: dict):
     return None
 
 
-def _expected_out(line: str):
-    """The output the property demands for the ops whose output it fixes from the case line alone (else None)."""
-    f = line.split(SEP)
-    if f[1] == "obj":
-        bits = _obj_expected_bits(f[3], f[4], _opt(f[5]), _opt(f[6]))
-        if bits is None:
-            return None
-        eb = hx(_exp_bytes(bits))
-        return "ok %s %s %s %s" % (wire(bits), eb, eb if len(bits) % 8 == 0 else "!", eb)
-    if f[1] == "rt":
-        return "ok " + f[3]
-    if f[1] == "arr":
-        eb = hx(_exp_bytes(unwire(f[4])))
-        return "ok %s %s" % (eb, eb)
-    return None
-
-
 def compare(o: str, m: str, line: str) -> bool:
-    """IMPL vs MODEL.  Inside the region of a known deviation the model transcribes the deviant behaviour (it is
-    not the specification there), so an implementation that gives the property's own answer instead is accepted:
-    repairing the defect must not raise an alarm."""
-    if line.split(SEP)[1] == "big":
+    if line.split(SEP)[1] == "big":                               # oracle-only (too large for the model)
         return m == "skip"
-    if o == m:
-        return True
-    return any(pred(line) for pred in REGIONS.values()) and o == _expected_out(line)
+    return o == m
 
 
 def nontrivial(line: str) -> bool:
@@ -523,26 +501,7 @@ def nontrivial(line: str) -> bool:
             "afrom": lambda: f[5] != "-", "art": lambda: f[4] != "-", "big": lambda: True}.get(f[1], lambda: True)()
 
 
-def _tofile_lsb0_multichunk(line: str) -> bool:
-    """Region of the known finding: options.lsb0 is on and the object is longer than the tofile chunk in force."""
-    f = line.split(SEP)
-    if f[1] == "obj" and f[9] == "1":
-        bits, chunk = _obj_expected_bits(f[3], f[4], _opt(f[5]), _opt(f[6])), f[7]
-    elif f[1] == "rt" and f[7] == "1":
-        bits, chunk = unwire(f[3]), f[4]
-    elif f[1] == "arr" and f[6] == "1":
-        bits, chunk = unwire(f[4]), f[5]
-    else:
-        return False
-    if bits is None:
-        return False
-    # the chunk the MODEL uses for this line; in a tree without the hook the implementation really runs with the
-    # shipped constant, is then right on these small cases, and `compare` accepts that
-    eff = int(chunk) if chunk != "-" else CHUNK
-    return len(bits) > eff
-
-
-REGIONS = {"tofile_lsb0_multichunk": _tofile_lsb0_multichunk}
+REGIONS = {}            # no open known deviation (empty-file: fixed a177cac; tofile-lsb0-chunks: fixed 14ceb68)
 
 # ---------------------------------------------------------------- generators
 BYTE_KINDS = ["bytes", "bytearray", "mview", "bio", "fname", "handle"]
